@@ -75,6 +75,18 @@ pub(crate) struct ShapeIndex {
 }
 
 impl ShapeIndex {
+    /// Offset of the record in bytes (the file stores it in 16-bit words)
+    fn offset_in_bytes(self) -> Result<u64, Error> {
+        u64::try_from(self.offset)
+            .map(|words| words * 2)
+            .map_err(|_| {
+                Error::IoError(std::io::Error::new(
+                    std::io::ErrorKind::InvalidData,
+                    "negative record offset in the index file",
+                ))
+            })
+    }
+
     pub(crate) fn write_to<W: Write>(self, dest: &mut W) -> std::io::Result<()> {
         dest.write_i32::<BigEndian>(self.offset)?;
         dest.write_i32::<BigEndian>(self.record_size)?;
@@ -86,8 +98,12 @@ impl ShapeIndex {
 fn read_index_file<T: Read>(mut source: T) -> Result<Vec<ShapeIndex>, Error> {
     let header = header::Header::read_from(&mut source)?;
 
-    let num_shapes = ((header.file_length * 2) - header::HEADER_SIZE) / INDEX_RECORD_SIZE as i32;
-    let mut shapes_index = Vec::<ShapeIndex>::with_capacity(num_shapes as usize);
+    // the length comes from the file: compute in i64, a length shorter than
+    // the header means no entries
+    let num_shapes = (i64::from(header.file_length) * 2 - i64::from(header::HEADER_SIZE))
+        / INDEX_RECORD_SIZE as i64;
+    let num_shapes = usize::try_from(num_shapes).unwrap_or(0);
+    let mut shapes_index = Vec::<ShapeIndex>::with_capacity(num_shapes);
     for _ in 0..num_shapes {
         let offset = source.read_i32::<BigEndian>()?;
         let record_size = source.read_i32::<BigEndian>()?;
@@ -104,7 +120,10 @@ fn read_one_shape_as<T: Read, S: ReadableShape>(
     mut source: &mut T,
 ) -> Result<(record::RecordHeader, S), Error> {
     let hdr = record::RecordHeader::read_from(&mut source)?;
-    let record_size = hdr.record_size * 2;
+    let record_size = match hdr.record_size.checked_mul(2) {
+        Some(size) if size >= 0 => size,
+        _ => return Err(Error::InvalidShapeRecordSize),
+    };
     let shape = S::read_from(&mut source, record_size)?;
     Ok((hdr, shape))
 }
@@ -135,9 +154,12 @@ impl<T: Read + Seek, S: ReadableShape> Iterator for ShapeIterator<'_, T, S> {
                 // Its 'safer' to seek to the shape offset when we have the `shx` file
                 // as some shapes may not be stored sequentially and may contain 'garbage'
                 // bytes between them
-                let start_pos = shapes_indices.next()?.offset * 2;
-                if start_pos != self.current_pos as i32 {
-                    if let Err(err) = self.source.seek(SeekFrom::Start(start_pos as u64)) {
+                let start_pos = match shapes_indices.next()?.offset_in_bytes() {
+                    Ok(pos) => pos,
+                    Err(err) => return Some(Err(err)),
+                };
+                if start_pos != self.current_pos as u64 {
+                    if let Err(err) = self.source.seek(SeekFrom::Start(start_pos)) {
                         return Some(Err(err.into()));
                     }
                     self.current_pos = start_pos as usize;
@@ -355,7 +377,7 @@ impl<T: Read + Seek> ShapeReader<T> {
             _shape: std::marker::PhantomData,
             source: &mut self.source,
             current_pos: header::HEADER_SIZE as usize,
-            file_length: (self.header.file_length as usize) * 2,
+            file_length: usize::try_from(self.header.file_length).unwrap_or(0) * 2,
             shapes_indices: self.shapes_index.as_ref().map(|s| s.iter()),
         }
     }
@@ -453,12 +475,11 @@ impl<T: Read + Seek> ShapeReader<T> {
     /// was not constructed with [ShapeReader::with_shx]
     pub fn seek(&mut self, index: usize) -> Result<(), Error> {
         if let Some(ref shapes_index) = self.shapes_index {
-            let offset = shapes_index
-                .get(index)
-                .map(|shape_idx| (shape_idx.offset * 2) as u64);
-
-            match offset {
-                Some(n) => self.source.seek(SeekFrom::Start(n)),
+            match shapes_index.get(index) {
+                Some(shape_idx) => {
+                    let offset = shape_idx.offset_in_bytes()?;
+                    self.source.seek(SeekFrom::Start(offset))
+                }
                 None => self.source.seek(SeekFrom::End(0)),
             }?;
             Ok(())
